@@ -416,8 +416,14 @@ func extractTagTokensFromComment(commentText string, baseLine, baseCol uint32) [
 
 	var tokens []semanticToken
 	// UTF-16 column of a byte offset inside the comment text (+1 for the semicolon)
+	measured, measuredUnits := 0, 0
 	colAt := func(byteOffset int) uint32 {
-		return baseCol + 1 + uint32(lsputil.UTF16Len(commentText[:byteOffset]))
+		if byteOffset < measured {
+			measured, measuredUnits = 0, 0
+		}
+		measuredUnits += lsputil.UTF16Len(commentText[measured:byteOffset])
+		measured = byteOffset
+		return baseCol + 1 + uint32(measuredUnits)
 	}
 
 	parts := strings.Split(commentText, ",")
